@@ -46,7 +46,7 @@ def gen(rng):
         la, lo = G.destination(lat, lon, north, east)
         ports = sorted(set(rng.sample(PORTPOOL, rng.randrange(1, 4)) + [2001]))
         st.append({"lat": to_int(la), "lon": to_int(lo), "ports": ports, "pai": rng.randrange(2), "s": rng.randrange(0, 4000), "h": rng.randrange(3600),
-                   "st": rng.randrange(13)})
+                   "st": rng.choice(tuple(range(12)) + (15,))})
     ops = []
     beac = [i for i in range(n) if rng.random() < 0.8]
     for i in beac:
